@@ -31,7 +31,8 @@ CONFIG = {'gen': ['SmbCommands'],
                  'KiB per input byte per case, GOMEMLIMIT behind it)',
                  'stdlib internals (encoding/asn1, base64, hex, strconv, regexp, utf16, crypto/aes) do not panic',
                  'the repairs fixes/C07-*.diff (and the earlier fixes/C03-data-unmarshal-guard, C06-*, C08-*, C12-gppp-odd-length, '
-                 'C13-guid-strict-dbp, C20-ipv4-parse) are applied to the tree under test',
+                 'C13-guid-strict-dbp, C20-ipv4-parse) are applied to the tree under test; fixes/C07-dn-domain-quadratic.diff is proposed only '
+                 '(the cost function C16.dnAllocOf follows the unrepaired `domain += …` loop)',
                  'integer arguments of exported decoders other than the LLMNR offsets are not inputs of the property; negative LLMNR '
                  "offsets are covered by the campaign only (the model's offsets are naturals)"],
  'trusted': ['tools/extract/smb_commands.go (statement-by-statement translation of the 115 Marshal/Unmarshal bodies into the command IR; '
